@@ -44,6 +44,10 @@ def configs(tier, seed):
         out.append(dict(c, name="retro " + c["name"], h="retro"))
     for op, fam, R in (("holdout", "A", 7), ("rholdout", "A", 4), ("perm", "A", 5), ("segr", "B", 5), ("pair", "D", 5), ("fixed", "C", 6), ("cover", "A", 4)):
         out.append(dict(name="set-order independence: %s %s" % (op, fam), h="setorder", op=op, fam=fam, R=R))
+    # the same operation later in the same process (another call with another generator in between): same inputs, same seed,
+    # same result - whatever objects of the same classes did earlier
+    for op, fam, R in (("cover", "A", 4), ("holdout", "A", 5), ("perm", "A", 4), ("segr", "B", 4), ("fixed", "C", 5)):
+        out.append(dict(name="call-history independence: %s %s" % (op, fam), h="setorder", op=op, fam=fam, R=R, history=True))
     out += [dict(name="random scorer", h="rand_scorer"), dict(name="dbal sub-sampling", h="dbal"), dict(name="dbal scorer reused", h="dbal_reuse"), dict(name="model object trained twice", h="resample"),
             dict(name="policy + select_next_plate", h="select"), dict(name="seed argument", h="seedarg"),
             dict(name="gibbs sparse_combo", h="gibbs", model="combo"), dict(name="gibbs interaction", h="gibbs", model="inter"),
@@ -222,10 +226,12 @@ def h_dbal(ctx, cfg):
 def h_dbal_reuse(ctx, cfg):
     """one scorer object used for two rounds: the second round must behave like a fresh scorer given an identically
     seeded generator (output and number of draws consumed)"""
-    from .c05 import _Plate, _Theta
+    from .c05 import _views, _theta_class
     np = ctx.np
     gd = ctx.mod("batchie.scoring.gaussian_dbal")
     core = ctx.mod("batchie.core")
+    _Theta = _theta_class(core)
+    _screen, _names, _pv = _views(ctx, [1, 2])
     dc = ctx.mod("batchie.distance_calculation")
     nt, sizes = 4, [1, 2]
     holder = core.ThetaHolder(n_thetas=nt)
@@ -235,7 +241,7 @@ def h_dbal_reuse(ctx, cfg):
     for i in range(nt):
         for j in range(i):
             dm.add_value(i, j, 0.3 + 0.1 * i + 0.05 * j)
-    plates = {4: _Plate(np, 3, 0, 1), 9: _Plate(np, 3, 1, 2)}
+    plates = {4: _pv[0], 9: _pv[1]}
     with _Streams(ctx) as st:
         scorer = gd.GaussianDBALScorer(max_chunk=5, max_triples=2)
         scorer.score(plates=plates, distance_matrix=dm, samples=holder, rng=ctx.rng("R"), progress_bar=False)
@@ -349,7 +355,13 @@ def h_setorder(ctx, cfg):
                 first = once(g1)
             except ValueError:
                 return "refused"
-            ordset.ORDER[0] = "desc"
+            if cfg.get("history"):
+                try:
+                    once(ctx.rng("W"))  # an unrelated call in between, with draws of its own
+                except ValueError:
+                    pass
+            else:
+                ordset.ORDER[0] = "desc"
             second = once(ctx.replay_rng(g1, "Rtwin"))
     finally:
         ordset.ORDER[0] = "asc"
@@ -361,6 +373,10 @@ def h_setorder(ctx, cfg):
         for f in ("sn", "tn", "td", "pn", "mask"):
             same = same and ta[f] == tb[f]
         same = ctx.And(same, all_eq_list(ctx, ta["obs"], tb["obs"]))
+    if cfg.get("history"):
+        ctx.prove(same, "the result is a function of the inputs and the generator: the same call later in the same process gives the same result",
+                  key="result depends on earlier calls in the process")
+        return _judge(ctx, st, "retrospective preparation (%s, repeated in one process)" % cfg["op"])
     ctx.prove(same, "the result does not depend on the iteration order of a set of strings (hash salt of the process)",
               key="result depends on set iteration order")
     return _judge(ctx, st, "retrospective preparation (%s, two set orders)" % cfg["op"])
